@@ -140,7 +140,7 @@ PROPS = {
         "constants": ["INITIAL_TIMEOUT_ns", "NODE_TIMEOUT_ns", "NO_NETWORK_TIMEOUT_ns", "PERIODIC_CHECK_TIMEOUT_ns", "GOOD_NODE_THRESHOLD", "MAX_INITIAL_RESPONSES", "BOOTSTRAP_RETRY_BASE", "BOOTSTRAP_RETRY_MAX_EXP", "BOOTSTRAP_THROTTLE_AFTER"],
         "trusted": NODE_TRUST,
         "assumptions": [],
-        "level_note": "PARTIAL: proved for every run of the node model — no contacts: Bootstrapped in the starting step and the worker never attempts anything; with contacts: no Bootstrapped publication, no handled completion and no returning bootstrapped() before a contact's response was accepted; every waiter resolved in the step of the completion, nobody left waiting while bootstrapped, immediate return while bootstrapped; API commands always answered; first-round contacts pairwise distinct (the F15 assertion is unreachable). Not proved in Lean — the timed clause (resolution within about 11 minutes of a contact becoming responsive after any outage pattern): decided by the [C15] oracle of the node engine on outage/flapping scenarios against the real node (tie). Finding F15 demonstrated by the node engine and fixed in /repo",
+        "level_note": "PARTIAL: proved for every run of the node model — no contacts: Bootstrapped in the starting step and the worker never attempts anything; with contacts: no Bootstrapped publication, no handled completion and no returning bootstrapped() before a contact's response was accepted; every waiter resolved in the step of the completion, nobody left waiting while bootstrapped, immediate return while bootstrapped; API commands always answered; first-round contacts pairwise distinct and, in every state of every run, the exchanges registered with the socket have pairwise distinct (address, id) keys (the F15 assertion is unreachable). Not proved in Lean — the timed clause (resolution within about 11 minutes of a contact becoming responsive after any outage pattern): decided by the [C15] oracle of the node engine on outage/flapping scenarios against the real node (tie). Finding F15 demonstrated by the node engine and fixed in /repo",
     },
     "C11": {
         "engines": [{"name": "node", "quick": 42, "thorough": 140, "oracle_tag": "C11"},
